@@ -983,7 +983,8 @@ func (g *c11ProgGen) genFile(idx int, name string, incs []*c11FileCtx) *c11FileC
 			k.name = strings.ToUpper(k.name)
 		}
 		// reference to an earlier constant of the same declared type
-		if r.Chance(20) {
+		// excluded: java-container-constant-reference — only constants of base types refer to others
+		if r.Chance(30) && !t.isCont() && c11IsBaseName(t.name) {
 			for _, o := range f.consts {
 				if o.t.String() == t.String() {
 					k.val, k.ref = o.name, o.name
@@ -1050,6 +1051,7 @@ func (g *c11ProgGen) genFile(idx int, name string, incs []*c11FileCtx) *c11FileC
 				if len(excs) > 0 && r.Chance(40) {
 					ne := 1 + r.Intn(2)
 					en := c11NewNamer(r)
+					en.typeNames = true // excluded: go-screaming-caps-name (throws fields)
 					usedExc := map[string]bool{}
 					for k := 0; k < ne; k++ {
 						e := excs[r.Intn(len(excs))]
@@ -1115,7 +1117,8 @@ func c11PrefixVar(r *Rng, n *c11Namer) string {
 		if r.Chance(20) {
 			w += strconv.Itoa(r.Intn(10))
 		}
-		if len(w) < 2 || n.used[c11Canon(w)] {
+		// assumption: a prefix variable does not carry the name of a local of the generated code
+		if len(w) < 2 || n.used[c11Canon(w)] || w == "topic" || w == "prefix" || w == "op" {
 			continue
 		}
 		n.used[c11Canon(w)] = true
